@@ -6,6 +6,7 @@ package gohlslib
 
 import (
 	"fmt"
+	"github.com/bluenviron/gohlslib/v2/internal/zzverif/m3u"
 	"github.com/bluenviron/gohlslib/v2/internal/zzverif/vh"
 )
 
@@ -334,4 +335,55 @@ func e1Scens(prop, tier string) []e1Scen {
 	tsa16.SegMinMS = 6400
 	out = append(out, e1Scen{Prop: prop, Cfg: tsa16, Alpha: alphaAudio(tsa16)[:2], Mode: "periodic", Period: 2, Len: 330, Name: "ts-audio-only-boundary-periodic"})
 	return out
+}
+
+// c05AfterClose: the clause "at the moment a playlist is served, every URI in it can be fetched" also covers the
+// moment right after Close: a media playlist that is still answered with 200 then must not list what Close has removed.
+func c05AfterClose(r *e1run) {
+	if r.closed || r.faulted || len(r.steps) == 0 || !r.steps[len(r.steps)-1].avail {
+		return
+	}
+	inBubble(e1T, func() {
+		m := r.mi.m
+		r.closed = true
+		m.Close()
+		for _, s := range m.streams {
+			path := mediaPlaylistPath(s.id)
+			rr, blocked := r.probe(path)
+			if blocked || rr == nil || rr.Status != 200 {
+				continue // not served (what a request after Close gets is C07's subject)
+			}
+			mp, _, _ := m3u.Parse(rr.Body.Bytes(), m3u.Options{})
+			if mp == nil {
+				continue
+			}
+			var uris []string
+			if mp.HasMap {
+				uris = append(uris, mp.MapURI)
+			}
+			for _, sg := range mp.Segments {
+				if !sg.Gap {
+					uris = append(uris, sg.URI)
+				}
+				for _, pt := range sg.Parts {
+					uris = append(uris, pt.URI)
+				}
+			}
+			for _, u := range uris {
+				fr, fblocked := r.probe(u)
+				if fblocked || fr == nil || fr.Status != 200 || fr.Body.Len() == 0 {
+					st := -1
+					if fr != nil {
+						st = fr.Status
+					}
+					r.add("C05", "listed-uri-not-200-after-close", "after Close %s is still served with status 200 and lists %s, which cannot be fetched (status %d, blocked=%v); ops %s", canon(path), canon(u), st, fblocked, r.opsString())
+					return
+				}
+			}
+		}
+	})
+}
+
+func init() {
+	e1Hooks["C05"] = func(r *e1run) { r.finalHook = c05AfterClose }
 }
